@@ -133,10 +133,16 @@ SetVerifier(v) ==
      ELSE /\ last' = Obs("set_verifier", v, "err")
           /\ UNCHANGED <<loaded, verifier, jit, cl, jitH, clH, helper, calc, layout>>
 
+\* Registering under an id that is already taken replaces the function, and - compiled code embeds
+\* the function that was registered when it was built - drops the compiled artefacts: code bound
+\* to the earlier function never runs in place of the new one (it has to be compiled again).
 RegisterHelper(h) ==
   /\ helper' = h
   /\ last' = Obs("register_helper", h, "ok")
-  /\ UNCHANGED <<loaded, verifier, jit, cl, jitH, clH, calc, layout>>
+  /\ IF helper # None
+     THEN jit' = None /\ cl' = None /\ jitH' = None /\ clH' = None
+     ELSE UNCHANGED <<jit, cl, jitH, clH>>
+  /\ UNCHANGED <<loaded, verifier, calc, layout>>
 
 SetCalc(c) ==
   /\ calc' = c
@@ -208,7 +214,11 @@ RunsLatestLoaded ==
 \* an execution's result is a function of the program, the helpers/calculator/layout in force and
 \* the packet passed in - of nothing else (in particular not of earlier executions)
 ResultIsFunctionOfInputs ==
-  last.op = "exec" /\ loaded # None => last.res = Val(loaded, "interp", last.arg, helper, calc, layout)
+  /\ last.op = "exec" /\ loaded # None => last.res = Val(loaded, "interp", last.arg, helper, calc, layout)
+  \* ... also under the compilers: a value returned by compiled code is the value with the helpers
+  \* registered NOW (not with those registered when it was compiled)
+  /\ last.op = "exec_jit" /\ last.res # "err" => last.res = Val(loaded, "jit", last.arg, helper, calc, layout)
+  /\ last.op = "exec_cl" /\ last.res # "err" => last.res = Val(loaded, "cl", last.arg, helper, calc, layout)
 
 \* no program, or nothing compiled: errors
 NoProgIsError == last.op \in {"exec", "exec_jit", "exec_cl", "jit_compile", "cl_compile"} /\ loaded = None => last.res = "err"
